@@ -27,6 +27,7 @@ ASSUMPTIONS = [
 ]
 
 FORMS = ('sib', 'sub', 'up', 'abs', 'url', 'url1', 'url0', 'sys')
+FORMS_CORE = ('sib', 'sub', 'up', 'abs', 'url', 'sys')
 ROOTS = [
     {'name': 'path', 'base': 'main.bare', 'sys': 'sys/inc/'},
     {'name': 'subdir-path', 'base': 'lib/main.bare', 'sys': None},
@@ -287,9 +288,11 @@ def plan(tier):
             (trees(1, 2), ('sib', 'up'), 0, ('in-function',), False),
         ]
     return [
-        (trees(4, 1), FORMS, 2, ('adjacent',), True),
+        (trees(4, 1), FORMS_CORE, 2, ('adjacent',), True),      # depth-4 chains over the six core forms
+        (trees(3, 1), FORMS, 2, ('adjacent',), True),           # all eight forms to depth 3
         (trees(2, 2), ('sib', 'up', 'sys'), 2, ('adjacent', 'separated'), True),
-        (trees(2, 2), FORMS, 1, ('adjacent',), False),
+        (trees(2, 2), FORMS_CORE, 1, ('adjacent',), False),
+        (trees(2, 2), ('sib', 'url1', 'url0', 'sys'), 1, ('adjacent',), False),   # the two odd URL shapes in fan-out trees
         (trees(1, 3), FORMS, 1, ('adjacent', 'separated'), False),
         (trees(2, 3), ('sib', 'up'), 1, ('adjacent',), False),
         (trees(3, 1), FORMS, 1, ('in-function',), False),
